@@ -118,13 +118,13 @@ pub fn exec(c: &Value) -> Value {
         "rfc_read" => {
             let s = unchars(&c["s"]);
             let r = match guarded(|| DateTime::parse_rfc3339(&s)) {
-                Outcome::Ok(Ok(d)) => proj_dt(&d),
+                Outcome::Ok(Ok(d)) => proj_dt_full(&d),
                 Outcome::Ok(Err(e)) => err_value(&e),
                 Outcome::Panic(m) => json!({"k": "panic", "msg": chars(&m)}),
             };
             // FromStr for DateTime is the same reader
             let f = match guarded(|| s.parse::<DateTime>()) {
-                Outcome::Ok(Ok(d)) => proj_dt(&d),
+                Outcome::Ok(Ok(d)) => proj_dt_full(&d),
                 Outcome::Ok(Err(e)) => err_value(&e),
                 Outcome::Panic(_) => json!({"k": "panic"}),
             };
